@@ -32,6 +32,7 @@ where
     let mut upgraded = false;
     let mut last_iface = String::new();
     let mut last_service_stream: Option<VarlinkStream> = None;
+    let mut service_leftover: Vec<u8> = Vec::new();
     let mut address = String::new();
 
     loop {
@@ -139,7 +140,14 @@ where
                     break;
                 }
             }
+            if upgraded {
+                // bytes the service sent right behind its upgrade reply are already buffered:
+                // they belong to the client
+                service_leftover = service_bufreader.buffer().to_vec();
+            }
         } else if let Some(ref mut service_stream) = last_service_stream {
+            client_writer.write_all(&service_leftover)?;
+            client_writer.flush()?;
             let mut service_writer = service_stream.try_clone()?;
             // bytes the client sent right behind the upgrade request are already buffered:
             // they belong to the service
